@@ -251,6 +251,8 @@ C18_SPECIAL = [
     ("s1.h", "#ifndef S1_H\n# define S1_H\n\n# define STR({a}) #{a}\n# define CAT({a}, {b}) {a}##{b}\n# define {M} 42\n\nint\t{c}(int {a});\n\n#endif\n"),
     ("s2.c", "#ifdef {M}\n# define {N} 1\n#else\n# define {N} 2\n#endif\n#undef {M}\n#if defined({N}) && {N} > 1\n# define {K} #{N}\n#endif\n\nint\t{c}(int {a})\n{\n\treturn ({a} + {N});\n}\n"),
     ("s3.c", "#if {M}({N}, 7)\n# define {K}({a}) {a}##{a}\n#elif {N}\n# define {K}({b}) #{b}\n#endif\n\nint\t{c}(void)\n{\n\treturn ({K}(1));\n}\n"),
+    # operands of seven letters in conditions (room for every spelling the tool might treat specially by mistake: DEFINED, INCLUDE, ...)
+    ("s5.c", "#if {L} && {M}\n# define {N} 1\n#elif {L} == 1\n# define {N} 2\n#elif {L}({M}, 1)\n# define {N} 3\n#endif\n#ifdef {L}\n# undef {L}\n#endif\n\nint\t{c}(void)\n{\n\treturn ({N});\n}\n"),
     ("s4.h", "#ifndef S4_H\n# define S4_H\n\n# ifdef {M}\n#  define {K}({a}, {b}) {a} ## {b}\n# endif\n\ntypedef struct s_{a}\n{\n\tint\t{b};\n}\tt_{a};\n\n#endif\n"),
 ]
 
@@ -260,11 +262,11 @@ def c18_special(idx):
     name, tmpl = C18_SPECIAL[idx]
     lines = F.header_lines(name) + [F.Line([""], "blank")]
     slots = {}
-    defaults = {"a": "arg", "b": "bit", "c": "cnt", "M": "MAC", "N": "NUM", "K": "KEY"}
+    defaults = {"a": "arg", "b": "bit", "c": "cnt", "M": "MAC", "N": "NUM", "K": "KEY", "L": "FEATURE"}
     for raw in tmpl.split("\n")[:-1]:
         parts = []
-        for tok in re.split(r"(\{[a-cMNK]\})", raw):
-            if re.fullmatch(r"\{[a-cMNK]\}", tok):
+        for tok in re.split(r"(\{[a-cMNKL]\})", raw):
+            if re.fullmatch(r"\{[a-cMNKL]\}", tok):
                 k = tok[1]
                 if k not in slots:
                     slots[k] = F.Slot("macro" if k.isupper() else "id", defaults[k])
